@@ -27,7 +27,8 @@ def histories(draw):
             ops.append({"op": "trained", "v": draw(st.booleans())})
         else:
             ops.append({"op": o, "x": [draw(st.integers(-5, 5)) / 2.0, draw(st.integers(-5, 5)) / 2.0],
-                        "hook": draw(st.sampled_from(["decline", "value", "value"]))})
+                        # "a value" includes falsy ones: an empty list, zero
+                        "hook": draw(st.sampled_from(["decline", "value", "value", "empty-list", "zero-list"]))})
     return {"kind": kind, "hook": has_hook, "train_step": ts, "ops": ops}
 
 
@@ -69,10 +70,12 @@ def check_history(case):
     class PH(P):
         def predict(self, individual):
             hook_log.append(list(individual.vector))
-            if state["decision"] == "value":
-                state["pred_obj"] = [123.0 + len(hook_log)]
-                return state["pred_obj"]
-            return None
+            d = state["decision"]
+            if d == "decline":
+                return None
+            # always a cost *list*, like the objective's return value (a bare number would not survive Job.evaluate)
+            state["pred_obj"] = {"value": [123.0 + len(hook_log)], "empty-list": [], "zero-list": [0.0]}[d]
+            return state["pred_obj"]
 
     trains = []
 
@@ -124,7 +127,7 @@ def check_history(case):
                     ret = prob.surrogate.evaluate(ind)
             m["req"] += 1
             ask_hook = m["trained"] and case["hook"]
-            predicted = ask_hook and op["hook"] == "value"
+            predicted = ask_hook and op["hook"] != "decline"
             used = state["pred_obj"] is not None and ret is state["pred_obj"]
             if used and not predicted:
                 # (consulting the hook while untrained is allowed; using its answer is not)
